@@ -27,5 +27,6 @@ void     w_gset_raw(uint64_t nulltable, uint64_t numFields, uint8_t* pdu, uint64
 uint64_t w_bo(uint64_t helper, uint64_t x, uint8_t* image);
 uint64_t w_world_id(void);
 uint64_t w_world_model(void);
+void w_set_callmode(uint64_t m);                    /* 1: call through the parenthesised name (the exported function, not a macro of the same name) */
 uint64_t w_ev_mismatches(void);                      /* library calls whose argument expressions were not evaluated exactly once */
 uint64_t w_ev_last(uint8_t* out, uint64_t cap);     /* name of the last such function */
